@@ -180,8 +180,14 @@ def cview(k, v, ttl, ts):
 CODES = {"nil": "CNil", "keytoolarge": "CKeyTooLarge", "entrytoolarge": "CEntryTooLarge", "notfound": "CNotFound"}
 
 
-def op_to_coq(op):
+def op_to_coq(op, ob=None):
     n = op[0]
+    if n == "compact":
+        ord_ = ob[2] if ob is not None and len(ob) > 2 and ob[2] else []
+        return "OCompact %s %s" % (w(op[1]), clist(cN(int(h)) for h in ord_))
+    if n == "compactall":
+        ords = ob[2] if ob is not None and len(ob) > 2 and ob[2] else []
+        return "OCompactAll %s %s" % (w(op[1]), clist(clist(cN(int(h)) for h in o) for o in ords))
     if n == "put":
         return "OPut %s %s %s %s %s %s" % (w(op[1]), cN(int(op[2])), cbytes(bytes.fromhex(op[3])), cbytes(bytes.fromhex(op[4])), cZ(op[5]), cZ(op[6]))
     if n == "putraw":
@@ -191,7 +197,7 @@ def op_to_coq(op):
         return "%s %s %s" % (simple[n], w(op[1]), cN(int(op[2])))
     if n == "updttl":
         return "OUpdTTL %s %s %s %s" % (w(op[1]), cN(int(op[2])), cZ(op[3]), cZ(op[4]))
-    nullary = {"stats": "OStats", "len": "OLen", "range": "ORange", "compact": "OCompact", "compactall": "OCompactAll"}
+    nullary = {"stats": "OStats", "len": "OLen", "range": "ORange"}
     if n in nullary:
         return "%s %s" % (nullary[n], w(op[1]))
     if n == "scanall":
@@ -247,7 +253,7 @@ def case_to_coq(sc, obs):
         o = obs_to_coq(ob)
         if o is None:
             break
-        pairs.append("(%s, %s)" % (op_to_coq(op), o))
+        pairs.append("(%s, %s)" % (op_to_coq(op, ob), o))
     cfg = "{| c_size := %s; c_fork := %s; c_expired := %s; c_eqsize := %s |}" % (
         cN(sc["size"]), cbool(sc.get("fork", False)), cbool(sc.get("expired", False)), cbool(sc.get("eqsize", False)))
     return "(%s, %s)" % (cfg, clist(pairs))
@@ -277,17 +283,26 @@ def coq_compare(prefix, scenarios, results, shard=250, jobs=16):
         secs += dt
         if rc != 0:
             raise vlib.CheckError("coqc failed on generated cases: " + err[-3000:])
-        body = out.split("M =", 1)[1] if "M =" in out else ""
+        body = out.split("M =", 1)[1] if "M =" in out else None
+        if body is None:
+            raise vlib.CheckError("no result in coq output: " + out[-500:] + err[-500:])
         body = body.rsplit(":", 1)[0]
         flat = " ".join(body.split())
-        if flat.strip() in ("[]", "nil"):
-            continue
-        # entries look like (i, k, obs)
-        for m in re.finditer(r"\((\d+)(?:%nat)?, (\d+)(?:%nat)?, (.*?)\)(?=; \(|\]$)", flat):
-            mism.append((sh[int(m.group(1))], int(m.group(2)), m.group(3)))
-        if not mism:
-            mism.append((sh[0], -1, "unparsed coq output: " + flat[:300]))
+        for m in re.finditer(r"\((\d+)(?:%nat)?, (\d+)(?:%nat)?\)", flat):
+            mism.append((sh[int(m.group(1))], int(m.group(2)), None))
     return mism, secs
+
+
+def model_trace(sc):
+    """the model's observations for one scenario, as Coq prints them (for replay files)"""
+    cfg = "{| c_size := %s; c_fork := %s; c_expired := %s; c_eqsize := %s |}" % (
+        cN(sc["size"]), cbool(sc.get("fork", False)), cbool(sc.get("expired", False)), cbool(sc.get("eqsize", False)))
+    txt = HEADER + "Definition T := Eval vm_compute in let c := %s in run_obs c (init c) %s.\nPrint T.\n" % (
+        cfg, clist(op_to_coq(o, b) for o, b in zip(sc["ops"], sc.get("_obs") or [None] * len(sc["ops"]))))
+    rc, out, err, dt = vlib.coq_eval("trace_%d" % __import__("os").getpid(), txt)
+    if rc != 0:
+        return "coqc failed: " + err[-500:]
+    return " ".join(out.split("T =", 1)[-1].split())
 
 
 # ------------------------------------------------------------------------------------------
@@ -295,8 +310,8 @@ def coq_compare(prefix, scenarios, results, shard=250, jobs=16):
 # ------------------------------------------------------------------------------------------
 
 def mk_put(rng, wh, h, klen, vlen, raw=False, ts=None):
-    k = bytes([97 + (h % 3)]) + bytes((h * 7 + j) % 256 for j in range(max(klen - 1, 0))) if klen > 0 else b""
-    v = bytes(rng.randrange(256) for _ in range(vlen))
+    k = bytes([97 + (h % 3)]) + bytes([(h * 7) % 256]) * max(klen - 1, 0) if klen > 0 else b""
+    v = bytes([rng.randrange(256)]) * vlen      # one repeated byte: compact in the generated Coq file
     ttl = rng.choice([0, 0, 1758600000123, -1])
     if ts is None:
         ts = rng.randrange(1, 1 << 40)
